@@ -36,3 +36,18 @@ func TestExploreTwoWorkers(t *testing.T) {
 	}
 	t.Logf("wall %v, hook hits %d", time.Since(start), HookHits())
 }
+
+func TestExploreThreeWorkersOne(t *testing.T) {
+	if testing.Short() {
+		t.Skip()
+	}
+	start := time.Now()
+	p := Programs(3)[0]
+	g := &Graph{Prog: p}
+	g.Explore(64, nil)
+	if g.Violation != nil {
+		t.Fatalf("%s: %s", p, g.Violation.What)
+	}
+	t.Logf("%-40s complete=%v nodes=%d edges=%d transitions=%d executions=%d steps=%d diverged=%d both2=%d both1=%d gaveup=%d wakeorders=%d depth=%d wall=%v",
+		p, g.Complete(), g.Nodes(), g.Edges, g.Transitions, g.Executions, g.Steps, g.Diverged, g.BothSettled2, g.BothSettled1, g.GaveUp, g.WakeOrders, g.MaxDepth, time.Since(start))
+}
